@@ -275,6 +275,42 @@ theorem merge_surgery_order (l ms ds : List Cmd) (g : Cmd) (out : List Cmd)
   refine ⟨fun ha hb' => ?_, fun ha hb' => ?_, fun ha hb' => ?_⟩ <;>
     rcases h with h | ⟨h1, h2⟩ <;> first | (simpa [cpos, ha, hb'] using h) | exact absurd h1 ha | exact absurd h2 hb'
 
+/-- **surgery, predecessors precede everything that is emitted** — also when the block reduces to displacement
+gates alone (`g` is then the first `Dgate`, `ds` the others; seeded change C11-b1 dropped the edges `g → d`): a
+command that stays and shares a wire with a merged command that follows it comes before `g` and before every
+`d ∈ ds`. -/
+theorem merge_surgery_pred_before_all_emitted (l ms ds : List Cmd) (g : Cmd) (out : List Cmd)
+    (hf : forward (surgeryEdges l ms g ds) out = true) (a b : Cmd) (hb : Before l a b) (hd : dep a b)
+    (ha : a ∉ ms) (hbm : b ∈ ms) : ∀ e ∈ g :: ds, out.idxOf a < out.idxOf e := by
+  have hg : out.idxOf a < out.idxOf g := by
+    rcases surgery_order l ms ds g out hf hb hd with h | ⟨h1, _⟩
+    · simpa [cpos, ha, hbm] using h
+    · exact absurd h1 ha
+  intro e he
+  rcases List.mem_cons.1 he with rfl | he
+  · exact hg
+  · have : out.idxOf g < out.idxOf e := by
+      simp only [forward, List.all_eq_true, decide_eq_true_eq] at hf
+      refine hf (g, e) ?_
+      simp only [surgeryEdges, List.mem_append, List.mem_map]
+      exact Or.inr ⟨e, he, rfl⟩
+    omega
+
+/-- without the edges `g → d` (C11-b1) `Sgate|1; Kgate|1; BS|(0,1); D|0; D|1; BS.H|(0,1)` admits the order in
+which the displacement of mode 1 is emitted before the Kerr gate of mode 1 -/
+def dSrc : List Cmd :=
+  [ { id := 0, cls := "Sgate", regs := [1] }, { id := 1, cls := "Kgate", regs := [1] },
+    { id := 2, cls := "BSgate", regs := [0, 1] }, { id := 3, cls := "Dgate", regs := [0] },
+    { id := 4, cls := "Dgate", regs := [1] }, { id := 5, cls := "BSgate", regs := [0, 1] } ]
+def dD0 : Cmd := { id := 10, cls := "Dgate", regs := [0] }
+def dD1 : Cmd := { id := 11, cls := "Dgate", regs := [1] }
+theorem merge_displacements_only_counterexample :
+    forward (surgeryEdges dSrc (dSrc.drop 2) dD0 []) [dD1, dSrc[0]!, dSrc[1]!, dD0] = true ∧
+    forward (surgeryEdges dSrc (dSrc.drop 2) dD0 [dD1]) [dD1, dSrc[0]!, dSrc[1]!, dD0] = false ∧
+    forward (surgeryEdges dSrc (dSrc.drop 2) dD0 [dD1]) [dSrc[0]!, dSrc[1]!, dD0, dD1] = true ∧
+    checkMerge dSrc [dD1, dSrc[0]!, dSrc[1]!, dD0] [⟨[2, 3, 4, 5], [10, 11]⟩] [.keep 0, .keep 1, .block 0] = false := by
+  decide
+
 /-- **surgery, order relative to an emitted displacement gate** on mode `q` (no measured-parameter
 dependencies on `q`): a command that stays, acts on `q` and follows a merged command on `q` comes after it. -/
 theorem merge_surgery_order_disp (l ms ds : List Cmd) (g d : Cmd) (out : List Cmd) (q : Nat)
